@@ -106,6 +106,42 @@ def parse(out, harnesses):
     return results
 
 
+def playback_ascii(harness, timeout=1500):
+    """Re-run one failing harness with Kani's concrete playback and decode the counterexamples of the
+    `any_ascii` harnesses (first value: usize length, then one byte per buffer position) into texts.
+    Returns a list of candidate literals (counterexamples of failed checks first, covers last)."""
+    cmd = ['cargo', 'kani', '--target-dir', TARGET, '-Z', 'function-contracts', '-Z', 'stubbing', '-Z', 'concrete-playback',
+           '--concrete-playback=print', '--output-format', 'terse', '--harness', harness]
+    env = dict(os.environ, CARGO_NET_OFFLINE='true', ANWEISS_CDDL_VERIF_DIR=VERIF)
+    try:
+        r = subprocess.run(cmd, cwd=REPO, env=env, stdout=subprocess.PIPE, stderr=subprocess.STDOUT, text=True, timeout=timeout)
+    except subprocess.TimeoutExpired:
+        return []
+    out = r.stdout
+    cands = []
+    for m in re.finditer(r'/// Check for `([^`]*)`[^\n]*\n(?:(?:///[^\n]*)?\n)*#\[test\]\nfn \w+\(\) \{\n\s*let concrete_vals: Vec<Vec<u8>> = vec!\[(.*?)\n\s*\];', out, re.S):
+        kind, body = m.group(1), m.group(2)
+        vals = [[int(x) for x in v.split(',') if x.strip()] for v in re.findall(r'vec!\[([^\]]*)\]', body)]
+        if not vals or len(vals[0]) != 8:
+            continue
+        n = int.from_bytes(bytes(vals[0]), 'little')
+        bs = [v[0] for v in vals[1:] if len(v) == 1]
+        if n > len(bs):
+            continue
+        try:
+            text = bytes(bs[:n]).decode('ascii')
+        except UnicodeDecodeError:
+            continue
+        cands.append((0 if kind != 'cover' else 1, text))
+    cands.sort()
+    seen, res = set(), []
+    for _, t in cands:
+        if t not in seen:
+            seen.add(t)
+            res.append(t)
+    return res
+
+
 def part(harness_specs, prop, label_of=None):
     """Build an `extra` part for props.py.
     harness_specs: list of dicts {name, kind: complete|bounded, bound?, functions: [..], label, tiers: [..]}"""
@@ -161,11 +197,22 @@ def part(harness_specs, prop, label_of=None):
                 res['samples'].append({'unit': 'kani', 'obligation': h['label'], 'clause': h.get('clause', ''),
                                        'harness': h['name'], 'kind': h['kind']})
             if st != 'SUCCESSFUL' or r['failed']:
-                res['violations'].append({
-                    'unit': 'kani', 'label': h['label'], 'fn': ','.join(h.get('functions', [])),
-                    'message': 'Kani: %d of %d checks failed in %s' % (r['failed'], r['checks'], h['name']),
-                    'clause': [h.get('clause', '')], 'engine': 'kani',
-                    'verifier_output': '\n'.join(r['failures'])[:3000], 'witness_hint': h.get('witness_hint')})
+                v = {'unit': 'kani', 'label': h['label'], 'fn': ','.join(h.get('functions', [])),
+                     'message': 'Kani: %d of %d checks failed in %s' % (r['failed'], r['checks'], h['name']),
+                     'clause': [h.get('clause', '')], 'engine': 'kani',
+                     'verifier_output': '\n'.join(r['failures'])[:3000], 'witness_hint': h.get('witness_hint')}
+                if h.get('playback') == 'ascii_text' and h.get('replay_unit'):
+                    # Kani's own counterexample, replayed on the real code through the replay crate
+                    from . import check as _check
+                    import json as _json
+                    for lit in playback_ascii(h['name'])[:6]:
+                        w = {'literal': lit}
+                        out2, _e = _check.run_replay([h['replay_unit'], 'replay', _json.dumps(w)])
+                        if out2 and out2.get('violates'):
+                            v['fixed_witness'] = {'found': True, 'witness': w, 'real': out2.get('real'), 'source': 'kani concrete playback',
+                                                  'replay_args': [h['replay_unit'], 'replay', _json.dumps(w)]}
+                            break
+                res['violations'].append(v)
         for h in specs:
             for f in h.get('functions', []):
                 res['functions'].append({'fn': f, 'file': h.get('file'), 'under_contract': True, 'unit': 'kani',
